@@ -4,7 +4,7 @@ import json, os, subprocess
 ROOT = os.path.dirname(os.path.dirname(os.path.abspath(__file__)))
 
 CHECKS = {
- "C01": ("4 C01", "exact pairwise proper-crossing oracle over the return value of snap.SnapPolygon for generated valid polygons (10 hostile generators, dyadic/RD/WebMercator/ETRS89 grids, all flags)",
+ "C01": ("4 C01", "exact pairwise proper-crossing oracle over the return value of snap.SnapPolygon for generated valid polygons: 14 hostile generators incl. nested topology (moat), structured/large inputs (big: 40-150 vertices, spirals, long slivers) and a sheet with hundreds of holes (huge); dyadic (levels 4-31), RD, WebMercator, ETRS89 grids; repeated ids in requests; rings passed as windows of one array; all flags",
          "explores executions only: windows <= 13 pixels, <= 25 vertices per ring; validity and crossings decided on the tool's 1e-10 integer coordinates; known finding KF-F5 (invented edge at multiplicity >= 3) is suppressed by signature only",
          "runtime monitor: exact crossing oracle on SnapPolygon output"),
  "C02": ("4 C02", "reference-model monitor: SnapClosestPoints and non-collapsing SnapPolygon results compared element-by-element with an exact rational closed-segment/half-open-pixel router; the 3x3-pixel quarter-lattice window is enumerated completely in the thorough tier",
@@ -31,16 +31,16 @@ CHECKS = {
  "C08": ("4 C08", "metamorphic equality of SnapPolygon(p,S)[z] and SnapPolygon(p,{z})[z] for random subsets of round grids, key-set containment",
          "roundness decided by the oracle on the integer extent",
          "runtime monitor: alone-vs-together equality"),
- "C09": ("4 C09", "outside-extent oracle on the tool's integer ordinates: panic value type without the ignore flag, empty result with it, InsertPoint error, for vertices from 1 unit to 10^6 pixels outside each border",
+ "C09": ("4 C09", "outside-extent oracle on the tool's integer ordinates: panic value type without the ignore flag, empty result with it, InsertPoint error, for vertices from 1 unit to 10^6 pixels (and astronomically far) outside each border and each corner region",
          "distances below 1e-10 CRS units are not representable in the tool and not generated",
          "runtime monitor: rejection oracle on panic value / result / error"),
  "C14": ("4 C14", "independent true-quadtree predicate on JSON documents vs validation verdicts for all built-ins and the complete perturbation set (single fields and square-preserving pairs) (in-process), pixel size measured through the index, and the real binary's exit mode (error / panic / proceeds) through hook H2",
          "requested ids always present in the document; cell-size perturbations below 1 % carry no demand",
          "runtime monitor: validation verdict oracle in-process and at the process boundary"),
- "C15": ("4 C15", "200-bit-float reference model of tile corners, point-to-tile lookup, outside points and matrix bounding boxes for every matrix of every built-in set in both corner conventions",
+ "C15": ("4 C15", "200-bit-float reference model of tile corners, point-to-tile lookup (interior points and points a few ulp inside each edge), outside points and matrix bounding boxes for every matrix of every built-in set in both corner conventions",
          "tolerance 5e-10 (9-decimal rounding) + 4 ulp of the largest intermediate magnitude; x,y order from orderedAxes",
          "runtime monitor: reference model of tile addressing"),
- "C16": ("4 C16", "decode/encode/decode round-trip oracle (deep value equality incl. dynamic CRS type, byte-stable second encoding, semantic equality with the original for unmodified documents) and demanded-reject / no-panic oracle over 1-3 composed structural mutations of 15 documents",
+ "C16": ("4 C16", "decode/encode/decode round-trip oracle (deep value equality incl. dynamic CRS type, byte-stable second encoding, semantic equality with the original for unmodified documents), history clauses (encoding of a decoded value unchanged by decoding sibling documents; embedded sets still equal to their documents after thousands of decodes) and demanded-reject / no-panic oracle over 1-3 composed structural mutations of 15 documents",
          "accept/reject demanded only for the classes the statement names; nil and empty lists are equal",
          "runtime monitor: round-trip and rejection oracle over mutated documents"),
  "C17": ("4 C17", "bit-by-bit reference interleave vs ToZ/FromZ/MustToZ: equality, round trip, parent key, ok flag; all <=2-bit patterns and all 8-bit pairs at three shifts exhaustively, random pairs otherwise",
@@ -49,7 +49,7 @@ CHECKS = {
  "C10": ("4 C10", "offline history checker over what fake targets received through the real processing.ProcessFeatures (unique feature ids, sequential model): exactly-once, no foreign feature, source order, geometry/attribute identity, tile matrix id; 6 speed plans x GOMAXPROCS 1/2/4/16; thorough under the race detector",
          "schedules sampled, not enumerated; polygon function is a deterministic fake (10 % real SnapPolygon)",
          "runtime monitor: history checker over event logs of fake targets"),
- "C11": ("4 C11", "every pipeline run under the Go race detector; completion flags after a slow final flush, event-log loss/duplication/order, state-based goroutine-leak monitor, Go runtime deadlock detection (worker death = violation), plus runs of the race-built real binary on generated multi-table GeoPackages",
+ "C11": ("4 C11", "every pipeline run (1-48 fake targets, 6 speed plans, GOMAXPROCS 1-16, one table that runs longer than 10 s) under the Go race detector; completion flags after a slow final flush, event-log loss/duplication/order, state-based goroutine-leak monitor and state-based deadlock monitor (the Go runtime does not report deadlocks in race builds), plus runs of the race-built real binary on generated multi-table GeoPackages",
          "'always returns' = returned on every schedule produced; wall-clock watchdog only inconclusive; distinct interleaving signatures reported",
          "Go race detector + completion/leak/deadlock monitors"),
  "C12": ("4 C12", "read-back oracle (plain sqlite3) over files written by the real TargetGeopackage for every (count, page size) of an enumerated grid plus random ones: rows, order, attributes, geometry, R-tree entries and boxes, recorded extent, schema, geometry registration, srs",
